@@ -27,6 +27,10 @@ def event_kind(call: ast.Call, callee: str, client, state) -> Optional[str]:
         return 'close'
     if callee in ('select.select',):
         return 'select'
+    if callee.startswith(('select.poll(', 'select.epoll(')) and callee.endswith(').poll'):
+        return 'poll'
+    if callee.startswith(('select.poll(', 'select.epoll(')) and callee.endswith(').register'):
+        return 'pollreg'
     if callee.endswith('.settimeout') and 'dul_socket' in callee:
         return 'settimeout'
     if callee in ('self.from_service_user.get', 'self.from_service_user.get_nowait'):
@@ -49,7 +53,9 @@ def event_kind(call: ast.Call, callee: str, client, state) -> Optional[str]:
         return 'call:' + callee[5:]
     if callee == 'self.start':
         return 'start'
-    if callee in ('struct.unpack',) or callee.endswith('.unpack'):
+    if callee in ('struct.unpack', 'struct.unpack_from') or callee.endswith('.unpack') or callee.endswith('.unpack_from'):
+        return 'unpack'
+    if callee == 'int.from_bytes':
         return 'unpack'
     if callee == 'six.indexbytes':
         return 'indexbytes'
@@ -261,6 +267,67 @@ def action_raise_sets(fsm: FsmModel):
     return out
 
 
+def _is_select_call(e) -> bool:
+    return isinstance(e, ast.Call) and ast.unparse(e.func) in ('select.select', 'select')
+
+
+def _is_poll_call(e) -> bool:
+    """``select.poll().poll(t)``: the list of (fd, event mask) pairs reported for the registered objects"""
+    return isinstance(e, ast.Call) and isinstance(e.func, ast.Attribute) and e.func.attr == 'poll' and isinstance(e.func.value, ast.Call) \
+        and ast.unparse(e.func.value.func) in ('select.poll', 'select.epoll')
+
+
+def _is_readable_list(e) -> bool:
+    """``select.select(...)[0]``: the list of readable objects (what a tuple unpacking binds its first name to); the list a poll
+    object reports plays the same part (only objects registered for reading are in it)"""
+    if _is_poll_call(e):
+        return True
+    return isinstance(e, ast.Subscript) and _is_select_call(e.value) and isinstance(e.slice, ast.Constant) and e.slice.value in (0, -3)
+
+
+def says_readable(pol, e) -> bool:
+    """does the condition (expression e holding with polarity pol) say that select() reported something readable?  Only a test
+    of its first result list does: the 3-tuple itself is always true."""
+    if pol is None:
+        return False
+    if isinstance(e, ast.UnaryOp) and isinstance(e.op, ast.Not):
+        return says_readable(not pol, e.operand)
+    if _is_readable_list(e):
+        return pol is True
+    if isinstance(e, ast.Call) and ast.unparse(e.func) in ('len', 'bool', 'any') and len(e.args) == 1 and _is_readable_list(e.args[0]):
+        return pol is True
+    if isinstance(e, ast.Compare) and len(e.ops) == 1:
+        l, r, op = e.left, e.comparators[0], e.ops[0]
+        if isinstance(op, (ast.In, ast.NotIn)) and _is_poll_call(r):
+            # ``(fd, POLLIN) in events`` asks for an event mask that is exactly POLLIN: a hang-up or an error is reported as
+            # POLLIN | POLLHUP / POLLERR, the pair is not in the list and the end of the stream is never read
+            return False
+        if isinstance(op, ast.In) and _is_readable_list(r):
+            return pol is True
+        if isinstance(op, ast.NotIn) and _is_readable_list(r):
+            return pol is False
+        def is_len(x):
+            return isinstance(x, ast.Call) and ast.unparse(x.func) == 'len' and len(x.args) == 1 and _is_readable_list(x.args[0])
+        def is_empty(x):
+            return (isinstance(x, (ast.List, ast.Tuple)) and not x.elts) or (isinstance(x, ast.Constant) and x.value == 0)
+        name = type(op).__name__
+        if is_len(r) or _is_readable_list(r):
+            l, r = r, l
+            name = {'Lt': 'Gt', 'Gt': 'Lt', 'LtE': 'GtE', 'GtE': 'LtE'}.get(name, name)
+        if is_len(l) and isinstance(r, ast.Constant) and isinstance(r.value, int):
+            k = r.value
+            if name == 'Gt' and k >= 0 or name == 'GtE' and k >= 1 or name == 'NotEq' and k == 0:
+                return pol is True
+            if name == 'Eq' and k == 0 or name == 'Lt' and k == 1 or name == 'LtE' and k == 0:
+                return pol is False
+        if _is_readable_list(l) and is_empty(r) and not (isinstance(r, ast.Constant)):
+            if name == 'NotEq':
+                return pol is True
+            if name == 'Eq':
+                return pol is False
+    return False
+
+
 def blocking_problems(finals, log=None) -> List[str]:
     """E5/K1: every blocking call on a path must be bounded by a timeout.  A select() with timeout
     vouches for exactly one following recv(): a second read (e.g. a drain loop) needs its own."""
@@ -282,24 +349,38 @@ def blocking_problems(finals, log=None) -> List[str]:
                         break
                     window.append(e2)
                 ok = False
+                whole_tuple = False
                 sel_in_window = [e2 for e2 in window if e2.kind == 'select' and len(e2.args) >= 4 and e2.args[3] not in ('None',)
                                  and 'dul_socket' in e2.args[0]]
+                sel_in_window += [e2 for e2 in window if e2.kind == 'poll' and e2.args and e2.args[0] != 'None' and not e2.args[0].startswith('-')
+                                  and any(e3.kind == 'pollreg' and e3.args and 'dul_socket' in e3.args[0] for e3 in before)]
+                exact_mask = False
                 for c in ev.conds:
                     pol, e = parse_cond(c)
                     if e is None:
                         continue
-                    t = ast.unparse(e)
-                    if ((pol is True and t.startswith('select.select(')) or (pol is False and t.startswith('not select.select('))) \
-                            and sel_in_window:
+                    if says_readable(pol, e) and sel_in_window:
                         ok = True
+                    elif sel_in_window and isinstance(e, ast.Compare) and len(e.ops) == 1 and isinstance(e.ops[0], (ast.In, ast.NotIn)) \
+                            and _is_poll_call(e.comparators[0]):
+                        exact_mask = True
+                    elif sel_in_window and _is_select_call(e.operand if isinstance(e, ast.UnaryOp) and isinstance(e.op, ast.Not) else e):
+                        whole_tuple = True
                 if any(e2.kind == 'settimeout' for e2 in before):
                     ok = True
                 if not ok:
                     problems.append('recv() at line %d can block forever: no select() with timeout (or settimeout) vouches for '
-                                    'this read' % ev.line)
+                                    'this read%s' % (ev.line, ' (the result of select() is tested as a whole: a 3-tuple of lists is true '
+                                                     'whether or not anything is readable)' if whole_tuple else
+                                                     ' (the poll result is searched for a pair with one exact event mask: a hang-up or an error '
+                                                     'is reported with further bits set, so the read that would see the end of the stream '
+                                                     'is not vouched for -- and not made)' if exact_mask else ''))
             if ev.kind == 'select':
                 if len(ev.args) < 4 or ev.args[3] in ('None',):
                     problems.append('select() at line %d has no timeout' % ev.line)
+            if ev.kind == 'poll':
+                if not ev.args or ev.args[0] == 'None' or ev.args[0].startswith('-'):
+                    problems.append('poll() at line %d has no timeout' % ev.line)
             if ev.kind == 'qget':
                 block = ev.args[0] if ev.args else dict(ev.kwargs).get('block', 'True')
                 timeout = ev.args[1] if len(ev.args) > 1 else dict(ev.kwargs).get('timeout', 'None')
